@@ -641,7 +641,7 @@ fn main() {
         "pcs_broad_shapes_with_all_leaves_and_all_deviations": pcs_broad.iter().filter(|x| x.2).count(),
         "stark_broad_shapes": stark_broad.len(),
         "stark_broad_shapes_with_all_leaves": stark_broad.iter().filter(|x| x.1 == LeafMode::All).count(),
-        "pcs_extra_shapes(wide folds max_log_arity 4..7; height-1 matrices; constant matrices at an intermediate height)": pcs_extra.len(),
+        "pcs_extra_shapes(final polynomials of 8..32 coefficients; wide folds max_log_arity 4..7; height-1 matrices; constant matrices at an intermediate height)": pcs_extra.len(),
     });
     eprintln!("[C07] planned {planned}");
 
